@@ -280,6 +280,16 @@ def r3_paths(L, repo):
     for conds, eff in [(c, [e for c2, e in fw.effects if c2 == c or tuple(c2) == tuple(c[:len(c2)])]) for k, c, e_ in paths if k == "next"]:
         ticks = [e for e in eff if e.endswith("send_clck_ind()")]
         L.require("C09.R3", F, fn, "send_clck_ind() calls per completed iteration", 1, len(ticks), line=loop.lineno)
+    # the tick is decided by the wait: every execution of send_clck_ind() happens on a path on which the wait has
+    # already expired without the breaker (not before the wait, not when the breaker fired)
+    nt = 0
+    for c2, e2 in fw.effects:
+        if e2.endswith("send_clck_ind()"):
+            nt += 1
+            wl = [p_ for t_, p_ in c2 if t_ in waits]
+            L.ob("C09.R3", F, fn, "a tick fires only after the wait expired without the breaker being set",
+                 "wait(...) evaluated False before the tick", lit_fmt([x for x in c2 if x[0] in waits]), wl == [False], loop.lineno)
+    L.floor("C09.R3", "tick sites on the paths of one iteration", nt, 1)
     sleeps = [c for c in calls_in(loop) if canon(c.func) in ("time.sleep", "sleep")]
     L.require("C09.R3", F, fn, "constant sleeps in the loop", 0, len(sleeps))
     # the tick constant: one TDMA frame
@@ -530,10 +540,21 @@ def r4_restart(L, repo):
                 L.ob("C09.R4", m.rel, q, "caller of send_clck_ind", "CLCKGen._worker", q, q == "CLCKGen._worker", c.lineno)
 
 
+def r3(L, repo):
+    """the path-based decision; where one iteration of the loop does not have the shape of a deadline update at all
+    (no loop-carried `D' = D + tick`), the def-use rule decides and names what is wrong"""
+    try:
+        r3_paths(L, repo)
+    except AnalysisError as e:
+        L.extra["c09_r3_paths"] = "not applicable: %s" % str(e)[:120]
+        r3_deadline(L, repo)
+        return
+    L.structural("C09.R3 def-use classification of the deadline variable in the worker loop", r3_deadline, L, repo)
+
+
 def run(L, tier):
     repo = Repo(L.repo)
     L.stage(r1_counter, L, repo)
     L.stage(r2_indication, L, repo)
-    L.stage(r3_paths, L, repo)
-    L.structural("C09.R3 def-use classification of the deadline variable in the worker loop", r3_deadline, L, repo)
+    L.stage(r3, L, repo)
     L.stage(r4_restart, L, repo)
